@@ -27,10 +27,10 @@ pub struct TextSpace {
 
 impl TextSpace {
     pub fn chars(e: echar::EChar, oracle: fn(&str, &mut Ctx)) -> Box<dyn Space> {
-        Box::new(TextSpace { gen: TextGen::Chars(e), oracle, timeout_s: 60 })
+        Box::new(TextSpace { gen: TextGen::Chars(e), oracle, timeout_s: 20 })
     }
     pub fn toks(e: etok::ETok, oracle: fn(&str, &mut Ctx)) -> Box<dyn Space> {
-        Box::new(TextSpace { gen: TextGen::Toks(e), oracle, timeout_s: 90 })
+        Box::new(TextSpace { gen: TextGen::Toks(e), oracle, timeout_s: 30 })
     }
     pub fn list(id: &str, texts: Vec<String>, per_block: usize, oracle: fn(&str, &mut Ctx)) -> Box<dyn Space> {
         Box::new(TextSpace { gen: TextGen::List(TextList { id: id.to_string(), texts, per_block }), oracle, timeout_s: 120 })
